@@ -2,9 +2,10 @@
    ExtrOcamlBasic only: bool, option, unit, prod, list, sumbool map to OCaml's own;
    nat, positive, Z stay Coq's inductive types.  No Extract Constant. *)
 From Coq Require Import Extraction ExtrOcamlBasic.
-From GB Require Import Model.Allowance Model.Batcher Model.Shared Model.Lease Replay.Explore.
+From GB Require Import Model.Allowance Model.Batcher Model.Shared Model.Lease Model.BufferPtr Replay.Explore.
 Extraction Language OCaml.
 Extraction "batcher_model.ml" replay init candidates step quiescent next_due pending_calls
   allowance_float allowance_ceil float_ceil_div ceil_div validate loop_obs
   sstep sinit capacity max_capacity held partition_count wanted
-  lm_provision lm_create lm_lease.
+  lm_provision lm_create lm_lease
+  prun pinit arun ainit.
